@@ -890,7 +890,8 @@ class C20(Check):
         # the template cannot be read when this request needs it (cold cache): for the model that is the default error
         # handler failing with that exception, i.e. the last-resort page.  Only where the HTML page is what gets rendered.
         if (kind in ('nf', 'na', 'crash', 'hook', 'badpath', 'reqerr', 'json', 'big', 'gen', 'badtype') and not c['failing']
-                and c['accept'] in (None, '', 'text/html', '*/*', 'text/plain') and rng.random() < .12):
+                and rng.random() < .07):
+            c['accept'] = rng.choice([None, '', 'text/html', '*/*', 'text/plain'])
             c['tfault'] = rng.choice(TEMPLATE_FAULTS)
         return c
 
